@@ -24,7 +24,7 @@ WITNESS = [{'id': 'witness:extended-text-headers', 'src': {'geom': '3d', 'shape'
 def cases(tier, seed):
     rng = random.Random('C06/%s' % seed)
     out = [dict(w) for w in WITNESS]
-    n = 40 if tier == 'quick' else 500
+    n = 120 if tier == 'quick' else 800
     for i in range(n):
         geom = ['3d', '3d', 'irregular', '2d'][i % 4]
         hdr = {'seed': rng.randrange(1 << 20), 'nfields': rng.randint(0, 5), 'inside': True}
